@@ -21,11 +21,14 @@ const (
 	FlagConstFirst         = "const-first"          // CONST + /re/ { } : the reference's example, a syntax error
 	FlagStrCmpGeneric      = "str-cmp-generic"      // string comparison with a builtin result: numeric-looking strings compare as numbers
 	FlagDecoNested         = "deco-nested"          // a decorator used inside its own decorated block
+	FlagCaprefShape        = "capref-shape"         // a group of numeric characters only that also matches non-numbers ([0-9.]+, \d*, \d+-\d+)
+	FlagCaprefUnder        = "capref-under"         // a group that matches numbers only, typed String (bare class, zero-width operator)
 )
 
 // AllFlags lists the flagged streams in a fixed order.
 var AllFlags = []string{FlagOtherwiseElse, FlagOtherwiseAfterElse, FlagMixedAssign, FlagFloatCond,
-	FlagTwoPatterns, FlagInferOrder, FlagSettimeLen, FlagStrptimeMemo, FlagConstFirst, FlagStrCmpGeneric, FlagDecoNested}
+	FlagTwoPatterns, FlagInferOrder, FlagSettimeLen, FlagStrptimeMemo, FlagConstFirst, FlagStrCmpGeneric, FlagDecoNested,
+	FlagCaprefShape, FlagCaprefUnder}
 
 // Config selects what Generate produces.
 type Config struct {
@@ -40,6 +43,12 @@ type Config struct {
 	NoFloat      bool
 	NoText       bool
 	NoStop       bool
+	// RichGroups: capture groups are drawn from the families of capgroups.go and
+	// typed by the reference's decision procedure (captype.go) instead of the
+	// fixed list groupKinds.  Off by default: the stream of other users is unchanged.
+	RichGroups bool
+	// BigPow: Int `**` also gets exponents 5..40 and negative ones.
+	BigPow bool
 }
 
 func DefaultConfig() Config { return Config{MaxDepth: 3, MaxStmts: 3, MaxExpr: 3} }
@@ -63,10 +72,11 @@ type ctx struct {
 }
 
 type gen struct {
-	r    *vlib.Rand
-	cfg  Config
-	p    *Program
-	npat int
+	r     *vlib.Rand
+	cfg   Config
+	p     *Program
+	npat  int
+	nname int // fresh names of nested named groups
 	// decoScope[d] = captures visible at d's `next`
 	decoScope     map[*DecoDef][]capref
 	decoTime      map[*DecoDef]bool
@@ -240,6 +250,67 @@ var groupKinds = []struct {
 	{`[a-z]+`, TStr}, {`GET|POST`, TStr}, {`\w+`, TStr},
 }
 
+// top is one top-level capture group of a pattern under construction.
+type top struct {
+	body, name string
+	ty         Ty         // legacy groups: the listed type
+	rich       *RichGroup // rich groups: the drawn group
+}
+
+func (g *gen) freshName() string {
+	g.nname++
+	return fmt.Sprintf("m%d", g.nname)
+}
+
+// pickTop draws the body of one top-level group: from the fixed list
+// groupKinds, or (Config.RichGroups) from the families of capgroups.go.
+func (g *gen) pickTop(region string) top {
+	if g.cfg.RichGroups {
+		for {
+			rg := drawGroup(g.r, region, g.freshName)
+			if g.cfg.NoFloat && rg.Spec.Ty == TFloat {
+				continue
+			}
+			return top{body: rg.Body, rich: &rg}
+		}
+	}
+	gk := vlib.Pick(g.r, groupKinds)
+	if g.cfg.NoFloat && gk.ty == TFloat {
+		gk = groupKinds[0]
+	}
+	return top{body: gk.re, ty: gk.ty}
+}
+
+// setGroups fills p.Groups once p.Text is complete.  Rich groups: EVERY capture
+// group of the parsed pattern (nested ones included, in index order) with the
+// type the reference decides.
+func (g *gen) setGroups(p *Pattern, tops []top) {
+	if !g.cfg.RichGroups {
+		for _, t := range tops {
+			p.Groups = append(p.Groups, Group{Name: t.name, Ty: t.ty, Re: t.body})
+		}
+		return
+	}
+	specs, names, nested, err := SpecCapTypes(p.Text)
+	if err != nil {
+		panic(fmt.Sprintf("gen: pattern %q: %v", p.Text, err))
+	}
+	ti := 0
+	for i := range specs {
+		sp := specs[i]
+		gr := Group{Name: names[i], Ty: sp.Ty, Re: sp.Text, Nested: nested[i], Spec: &sp}
+		if !nested[i] {
+			t := tops[ti]
+			ti++
+			gr.Re, gr.Vals, gr.Bad = t.body, t.rich.Vals, t.rich.Bad
+			g.feat("group/" + t.rich.Region + "/" + sp.Ty.String())
+		} else {
+			g.feat("group/nested")
+		}
+		p.Groups = append(p.Groups, gr)
+	}
+}
+
 func (g *gen) newPat(subject bool) *PatNode {
 	r := g.r
 	g.npat++
@@ -271,25 +342,23 @@ func (g *gen) newPat(subject bool) *PatNode {
 		ng = 2
 	}
 	body := p.Word
+	var tops []top
 	for i := 0; i < ng; i++ {
-		gk := vlib.Pick(r, groupKinds)
-		if g.cfg.NoFloat && gk.ty == TFloat {
-			gk = groupKinds[0]
-		}
-		gr := Group{Ty: gk.ty, Re: gk.re}
+		t := g.pickTop(RegionMain)
 		if r.Chance(35) {
-			gr.Name = fmt.Sprintf("n%d%c", g.npat, 'a'+i)
-			body += " (?P<" + gr.Name + ">" + gr.Re + ")"
+			t.name = fmt.Sprintf("n%d%c", g.npat, 'a'+i)
+			body += " (?P<" + t.name + ">" + t.body + ")"
 		} else {
-			body += " (" + gr.Re + ")"
+			body += " (" + t.body + ")"
 		}
-		p.Groups = append(p.Groups, gr)
+		tops = append(tops, t)
 	}
 	if r.Chance(10) && ng == 0 {
 		p.Anchor = "^"
 		body = "^" + body
 	}
 	p.Text = body
+	g.setGroups(p, tops)
 	// sometimes written with a const fragment: the whole pattern, or a literal
 	// head followed by a const tail (a const FIRST in a concatenation is the
 	// reference's own example but a syntax error: flagged stream const-first)
@@ -694,6 +763,12 @@ func (g *gen) arith(c *ctx, t Ty, d int, strict bool) *Expr {
 		e.A = g.exprX(c, t, d-1, strict)
 		if sym == "**" {
 			e.B = &Expr{Op: "int", Ty: TInt, I: int64(r.Intn(4))}
+			if g.cfg.BigPow && r.Chance(35) {
+				// results beyond 2^53 and 2^63, negative exponents (1 ** -1 = 1):
+				// the reference's ** is int64(math.Pow(float64 a, float64 b))
+				e.B.I = vlib.Pick(r, []int64{5, 7, 11, 20, 40, -1, -2, -3})
+				g.feat("op/**big")
+			}
 		} else {
 			e.B = g.exprX(c, t, d-1, strict)
 		}
@@ -1061,17 +1136,15 @@ func (g *gen) onePat(name string) *PatNode {
 	r := g.r
 	g.npat++
 	p := &Pattern{Word: fmt.Sprintf("w%03d", g.npat)}
-	gk := vlib.Pick(r, groupKinds)
-	if g.cfg.NoFloat && gk.ty == TFloat {
-		gk = groupKinds[0]
-	}
-	gr := Group{Ty: gk.ty, Re: gk.re, Name: name}
+	_ = r
+	t := g.pickTop(RegionMain)
+	t.name = name
 	if name != "" {
-		p.Text = p.Word + " (?P<" + name + ">" + gr.Re + ")"
+		p.Text = p.Word + " (?P<" + name + ">" + t.body + ")"
 	} else {
-		p.Text = p.Word + " (" + gr.Re + ")"
+		p.Text = p.Word + " (" + t.body + ")"
 	}
-	p.Groups = []Group{gr}
+	g.setGroups(p, []top{t})
 	p.Parts = []PatPart{{Lit: p.Text}}
 	g.p.patterns = append(g.p.patterns, p)
 	g.feat("pattern/groups1")
@@ -1085,21 +1158,19 @@ func (g *gen) constPat() *PatNode {
 	p := &Pattern{Word: fmt.Sprintf("w%03d", g.npat)}
 	body := p.Word
 	ng := 1 + r.Intn(2)
+	var tops []top
 	for i := 0; i < ng; i++ {
-		gk := vlib.Pick(r, groupKinds)
-		if g.cfg.NoFloat && gk.ty == TFloat {
-			gk = groupKinds[0]
-		}
-		gr := Group{Ty: gk.ty, Re: gk.re}
+		t := g.pickTop(RegionMain)
 		if r.Chance(35) {
-			gr.Name = fmt.Sprintf("n%d%c", g.npat, 'a'+i)
-			body += " (?P<" + gr.Name + ">" + gr.Re + ")"
+			t.name = fmt.Sprintf("n%d%c", g.npat, 'a'+i)
+			body += " (?P<" + t.name + ">" + t.body + ")"
 		} else {
-			body += " (" + gr.Re + ")"
+			body += " (" + t.body + ")"
 		}
-		p.Groups = append(p.Groups, gr)
+		tops = append(tops, t)
 	}
 	p.Text = body
+	g.setGroups(p, tops)
 	cn := fmt.Sprintf("C%d", g.npat)
 	g.p.Consts = append(g.p.Consts, &Const{Name: cn, Lit: body})
 	p.Parts = []PatPart{{Const: cn}}
@@ -1126,6 +1197,7 @@ func (g *gen) cond(c *ctx, allowElse bool) *Stmt {
 	s := &Stmt{Op: "cond"}
 	var inner *ctx
 	var condPat, forceRead *PatNode
+	entered := false // the block is entered only after condPat matched
 	switch k := r.Intn(10); {
 	case k < 5:
 		var pn *PatNode
@@ -1137,6 +1209,7 @@ func (g *gen) cond(c *ctx, allowElse bool) *Stmt {
 		condPat = pn
 		s.E = &Expr{Op: "match", Ty: TBool, Pat: pn}
 		inner = g.enter(c, pn)
+		entered = true
 		g.feat("cond/pattern")
 	case k < 7:
 		pn := g.newPat(false)
@@ -1158,6 +1231,7 @@ func (g *gen) cond(c *ctx, allowElse bool) *Stmt {
 			// the right operand may use the captures the pattern just produced
 			inner = g.enter(c, pn)
 			rhs = g.boolExpr(inner, 1, &pats)
+			entered = true
 		}
 		s.E = &Expr{Op: op, Ty: TBool, A: &Expr{Op: "match", Ty: TBool, Pat: pn}, B: rhs}
 		g.feat("cond/pattern-" + op)
@@ -1196,6 +1270,13 @@ func (g *gen) cond(c *ctx, allowElse bool) *Stmt {
 		pre = []*Stmt{{Op: "cond", E: &Expr{Op: "cmp", Ty: TBool, Sym: "==", CT: gr.Ty, A: mk(), B: mk()},
 			Then: []*Stmt{g.action(g.sub(inner))}}}
 	}
+	if g.cfg.RichGroups && entered && len(condPat.P.Groups) > 0 && r.Chance(60) {
+		// the block first writes a captured value into the store (as a label, as a
+		// value of its type, or through its length): a group typed differently
+		// by the compiler shows up in the store
+		pre = append(pre, g.capAction(g.sub(inner), g.readOf(condPat)))
+		g.feat("capref/forced-write")
+	}
 	s.Then = append(pre, g.block(inner, n)...)
 	if allowElse && r.Chance(25) {
 		s.HasElse = true
@@ -1215,6 +1296,22 @@ func (g *gen) cond(c *ctx, allowElse bool) *Stmt {
 		g.feat("cond/else")
 	}
 	return s
+}
+
+// readOf is a read of one of pn's groups (mostly a top-level one), by number or
+// by name.
+func (g *gen) readOf(pn *PatNode) *Expr {
+	r := g.r
+	i := r.Intn(len(pn.P.Groups))
+	for tries := 0; tries < 4 && pn.P.Groups[i].Nested; tries++ {
+		i = r.Intn(len(pn.P.Groups))
+	}
+	gr := pn.P.Groups[i]
+	e := &Expr{Op: "cap", Ty: gr.Ty, Pat: pn, Grp: i + 1}
+	if gr.Name != "" && r.Bool() {
+		e.CapName = gr.Name
+	}
+	return e
 }
 
 // decoNested: a decorator with two nested patterns that both define group 1,
